@@ -23,8 +23,8 @@
 //!  * `api=encode`: the result is the first chunk (limit, prefix window) or the fabricated chunk;
 //!  * a panic is reported; so is an empty result although there is room for content tokens.
 //! An empty result when `lim` leaves no room for a content token is accepted (nothing else can
-//! respect the limit; theorem `c29_no_room_unsatisfiable`), and so is the truncation of the first
-//! sequence of a pair to the room available (documented behaviour, counted in a bucket).
+//! respect the limit; theorem `c29_no_room_unsatisfiable`). A pair whose first sequence fills the
+//! room, or whose second sequence is empty, yields no chunk: reported (open findings).
 use hcommon::{Args, Out};
 use rten_text::models::WordPiece;
 use rten_text::pre_tokenizers;
@@ -106,16 +106,20 @@ fn oracle(c: &Case, chunks: &[ChunkOut], truncated: bool, out: &mut Out) -> Opti
             return None;
         }
         if pair {
-            // room for the second sequence after the (truncated) first one
-            let r = room.unwrap_or(usize::MAX);
-            if full1.len() >= r {
-                out.bucket("no_room_for_second_sequence_empty_output");
-                return None;
-            }
             if full2.is_empty() {
                 return Some(format!(
                     "no chunk although there is room: the {} first-sequence tokens are not covered (second sequence is empty)",
                     full1.len()
+                ));
+            }
+            // the first sequence alone fills the room: the code gives up (pinned by a unit test),
+            // although the second sequence's tokens are content tokens and the limit exceeds the overhead
+            let r = room.unwrap_or(usize::MAX);
+            if full1.len() >= r {
+                return Some(format!(
+                    "no chunk: the first sequence ({} tokens) fills the room of {r} content tokens, the {} second-sequence tokens are not covered",
+                    full1.len(),
+                    full2.len()
                 ));
             }
         }
@@ -163,12 +167,10 @@ fn oracle(c: &Case, chunks: &[ChunkOut], truncated: bool, out: &mut Out) -> Opti
             }
             match &first_prefix {
                 None => {
-                    if head.len() < full1.len() {
-                        out.bucket("pair_first_sequence_truncated");
-                    }
-                    let want = full1.len().min(prefix_room.unwrap_or(usize::MAX));
-                    if head.len() != want {
-                        return Some(format!("chunk {ci}: first part has {} tokens, expected {want}", head.len()));
+                    // an emitted chunk always carries the whole first sequence (c29_pair_first_whole)
+                    let _ = prefix_room;
+                    if head.len() != full1.len() {
+                        return Some(format!("chunk {ci}: first part has {} of the {} first-sequence tokens", head.len(), full1.len()));
                     }
                     first_prefix = Some(head.to_vec());
                 }
